@@ -7,7 +7,7 @@ namespace Webauthn.Generated
 inductive Disp
   | ecdsa (hash : String)                       -- key.verify(sig, data, ECDSA(hash))
   | pkcs1v15 (hash : String)                    -- key.verify(sig, data, PKCS1v15(), hash)
-  | pss (mgfHash hash : String) (saltMax : Bool)-- key.verify(sig, data, PSS(MGF1(mgfHash), salt), hash)
+  | pss (mgfHash hash : String) (salt : String) -- key.verify(sig, data, PSS(MGF1(mgfHash), salt), hash); salt "max"|"auto"|"digest"|n
   | raw                                         -- key.verify(sig, data)
   | libExc (cls : String)
   | otherExc (cls : String)
